@@ -152,8 +152,11 @@ impl<R: Read, TSpec> TagIterator<R, TSpec>
             }
 
             self.internal_buffer_position += 1;
-            if self.peek_valid_tag_header().is_ok() {
-                break;
+            match self.peek_valid_tag_header() {
+                Ok(_) => break,
+                // a source error is not a reason to skip this position: report it
+                Err(err @ TagIteratorError::ReadError { .. }) => return Err(err),
+                Err(_) => {},
             }
         }
 
